@@ -237,6 +237,11 @@ func (ec *effectChecker) checkFunction(fn *ssa.Function, top *ssa.Function, ord 
 				if g, ok := v.Addr.(*ssa.Global); ok && fn.Name() != "init" && !strings.HasPrefix(fn.Name(), "init#") {
 					emit("write:"+g.Name(), []string{EffGlobalW}, v.Pos())
 				}
+			case *ssa.UnOp:
+				// reading the package variable time.Local hands out the host's zone
+				if g, ok := v.X.(*ssa.Global); ok && v.Op == token.MUL && g.Pkg != nil && g.Pkg.Pkg.Path() == "time" && g.Name() == "Local" {
+					emit("read:time.Local", []string{EffZone}, v.Pos())
+				}
 			}
 			ci, ok := in.(ssa.CallInstruction)
 			if !ok {
@@ -443,6 +448,10 @@ func cmdEffectsInfer(p *Program) {
 				case *ssa.Store:
 					if _, ok := v.Addr.(*ssa.Global); ok && fn.Name() != "init" && !strings.HasPrefix(fn.Name(), "init#") {
 						add([]string{EffGlobalW})
+					}
+				case *ssa.UnOp:
+					if g, ok := v.X.(*ssa.Global); ok && v.Op == token.MUL && g.Pkg != nil && g.Pkg.Pkg.Path() == "time" && g.Name() == "Local" {
+						add([]string{EffZone})
 					}
 				}
 				ci, ok := in.(ssa.CallInstruction)
